@@ -43,6 +43,7 @@ fn cmd_sim(args: &[String]) -> i32 {
             "codec" => gen::gen_codec(seed, n),
             "fuzzloop" => gen::gen_fuzzloop(seed, n),
             "cfgrun" => gen::gen_cfgrun(seed, n),
+            "long" => gen::gen_long(seed, n),
             f => {
                 eprintln!("unknown family {f}");
                 return 2;
